@@ -1039,7 +1039,18 @@ func (w *FWorld) DrawPeering(t *rapid.T) *FCmd {
 		c.Multi = req.SecretsRequest != nil
 		return c
 	}
-	switch k := rapid.IntRange(0, 19).Draw(t, "peerkind"); {
+	k := rapid.IntRange(0, 19).Draw(t, "peerkind")
+	// aimed: carry the handshake of an accepting peering forward (token generated -> secret exchanged -> pending secret
+	// promoted to the active stream secret), so that fully established peerings exist at the cut and are deleted or
+	// re-established after it
+	if cur != nil && !cur.ShouldDial() && cur.State != pbpeering.PeeringState_DELETING && chance(t, "handshake", 40) {
+		if sec, _ := w.Store.PeeringSecretsRead(nil, cur.ID); sec.GetStream().GetPendingSecretID() != "" {
+			k = 11
+		} else if sec.GetEstablishment().GetSecretID() != "" {
+			k = 12
+		}
+	}
+	switch {
 	case k <= 4: // GenerateToken (acceptor side): new peering or refreshed establishment secret
 		var p *pbpeering.Peering
 		if cur != nil {
